@@ -1,7 +1,14 @@
 """C04 -- see contracts/registry.json for the clauses; D kernels + bounded apply-level stand-in."""
+from pyvc.run import Job
+
 from . import apply_bounded, kernels
 
 
 def jobs(tier="quick", seed=0):
     yield from kernels.jobs_for("C04", tier, seed)
     yield apply_bounded.job("C04", tier, seed)
+    # "expressions contributed by a patch ... keep their addend": a patch's expressions are the assembler's; every way of writing a
+    # symbolic operand, with and without an addend, on every ISA (the apply-level family above is x86-64)
+    from . import c12_13
+    j = Job("C04/patch-operand-forms-bounded", c12_13.operand_forms(tier, seed), kind="B", func="gtirb_rewriting.assembler.assembler:_Streamer._fixup_to_symbolic_operand/_mcexpr_to_symbolic_operand")
+    yield j
